@@ -258,6 +258,9 @@ func c11(c *ctx) {
 	// ------------------------------------------------------------------ R8
 	c11sizeMeasure(c)
 
+	// ------------------------------------------------------------------ R9
+	c.ruleBlockCacheComplete("R9")
+
 }
 
 // the named result `r` lives in a cell because of the deferred recover: it holds the fresh results object or nil
